@@ -233,7 +233,7 @@ def hand_files(draw):
         lines.append('; Data')
         lines.append(ch(['@defb=%d:1,2,"a;"' % end, '@defb=%d:1,2,"a;"' % end, '@defs=%d:3,5' % end, '@defw=%d:%d,$1234' % (end, org)]))
         lines.append('@label=L%d' % end)
-        lines.append('b%05d DEFB 0,0,0,0' % end)
+        lines.append('b%05d %s' % (end, ch(['DEFB 0,0,0,0', 'DEFB 0,0,0,0', 'DEFS 4', 'DEFS 4,0', 'DEFW 0,0'])))
         feats.add('defb-directive')
         end += 4
     # @keep only in files that relocate nothing (in relocating files it exists to make the bytes differ)
